@@ -10,6 +10,6 @@ CONSTANTS
   MaxFaults = 0
   NIns = 2
 CONSTRAINT HighWater
-INVARIANTS ForgetOnlyAfterAck AckOnlyAfterInsertOrReject NoSilentLoss
+INVARIANTS ForgetOnlyAfterAck AckOnlyAfterInsertOrReject NoSilentLoss Held
 POSTCONDITION TraceAccepted
 CHECK_DEADLOCK FALSE
